@@ -167,6 +167,13 @@ def gen_world(rng, sweep=None):
         objs[(0x2100, i)] = [w, fl, v]
         cfg.add(var(0x2100, i, fl, w, v))
         pool.append((0x2100, i, w))
+    # mapped objects larger than 4 bytes (the application copies them in COTpdoReadData); never changed by the workload
+    if sweep is None:
+        for i, w in enumerate((5, 6)):
+            d = gen.rand_bytes(rng, w)
+            objs[(0x2110, i)] = [w, RW | P, int.from_bytes(d, "little")]
+            cfg.add(S.domain(0x2110, i, w, d, flags=RW | P))
+            pool.append((0x2110, i, w))
     tps = []
     n = rng.randint(1, 4) if sweep is None else 1
     for num in range(n):
@@ -277,11 +284,11 @@ def run_history(res, exe, rng, first, sweep=None):
                     if cfg.scale > 1 and rng.random() < 0.2:
                         op = ("tick", rng.choice([700, 1000, 1100]) * cfg.scale)
                 elif x < 0.45:
-                    op = ("wrchange", rng.choice(list(objs)))
+                    op = ("wrchange", rng.choice([k_ for k_ in objs if objs[k_][0] <= 4]))
                 elif x < 0.50:
-                    op = ("wrsame", rng.choice(list(objs)))
+                    op = ("wrsame", rng.choice([k_ for k_ in objs if objs[k_][0] <= 4]))
                 elif x < 0.58:
-                    op = ("sdowr", rng.choice(list(objs)))
+                    op = ("sdowr", rng.choice([k_ for k_ in objs if objs[k_][0] <= 4]))
                 elif x < 0.66:
                     op = ("trig", rng.randrange(NT))
                 elif x < 0.72:
